@@ -196,6 +196,70 @@ def run(ctx):
                "the expired object itself is deleted", f"{ch.module.rel}:{c.lineno}")
     if not dels:
         raise AnalysisError("C12: expiry no longer deletes")
+    # every stored object is examined: the scan over the containers has no early exit
+    for fn_name in ("check_and_delete_time_validity", "check_and_delete_area_of_maintenance"):
+        f2 = P.func(f"{MT}.{fn_name}")
+        loops = [n for n in ast.walk(f2.node) if isinstance(n, (ast.For, ast.While))]
+        if not loops:
+            raise AnalysisError(f"C12: {fn_name} no longer scans the containers")
+        for lp in loops:
+            exits = [n for n in ast.walk(lp) if isinstance(n, (ast.Break, ast.Return))]
+            over_all = isinstance(lp, ast.For) and norm(unparse(lp.iter)) == "self.get_all_data_containers()"
+            ctx.ob("C12.expiry", f2.short(), "scan-is-complete", over_all and not exits,
+                   "maintenance examines every stored object (loop over get_all_data_containers() without break/return)" if over_all and not exits else
+                   "the maintenance scan can stop early or does not range over all containers: an expired object behind a live one stays in the store",
+                   f"{f2.module.rel}:{lp.lineno}")
+    # area of maintenance: only objects OUTSIDE the area may be dropped
+    am = P.func(f"{MT}.check_and_delete_area_of_maintenance")
+    afl = ctx.flows.get(am)
+    adel = [c for c in P.calls_in(am) if isinstance(c.func, ast.Attribute) and c.func.attr == "del_provider_data"]
+    if not adel:
+        raise AnalysisError("C12: area-of-maintenance check no longer deletes")
+    for c in adel:
+        facts = [(f.pol, norm(pretty(f.key))) for f in afl.state_at(c).facts if f.kind == "cond"]
+        inside_pos = [k for pol, k in facts if pol and "compare_with_int(" in k and not k.startswith("not")]
+        ok = not inside_pos
+        ctx.ob("C12.area", am.short(), "deletes-outside-only", ok,
+               "objects are dropped only when they lie outside the area of maintenance" if ok else
+               "an object is deleted when relevance_distance.compare_with_int(distance) is TRUE, i.e. when it lies INSIDE the area of maintenance: "
+               "collect_trash (run on every add by the reactive maintenance) removes live objects near the station and keeps the far ones",
+               f"{am.module.rel}:{c.lineno}")
+    # registry getters hand out the registry itself (or a copy); a cached view must be invalidated by every mutator
+    sv = P.cls(SV)
+    for reg, getter in (("data_provider_its_aid", "get_data_provider_its_aid"), ("data_consumer_its_aid", "get_data_consumer_its_aid")):
+        gf = sv.methods[getter]
+        gfl = ctx.flows.get(gf)
+        attrs = set()
+        for k, s_, st in gfl.exits:
+            if k != "return" or s_.value is None:
+                continue
+            for alt in gfl.alternatives(s_.value, st):
+                for n in ast.walk(alt):
+                    d = dotted(n) if isinstance(n, ast.Attribute) else None
+                    if d and d.startswith("self.") and d.count(".") == 1 and d != "self._lock":
+                        attrs.add(d[5:])
+        ctx.ob("C12.gated", gf.short(), f"reads-registry:{reg}", reg in attrs or bool(attrs - {reg}),
+               f"{getter} returns a value derived from {sorted(attrs)}", gf.loc)
+        caches = attrs - {reg}
+        mutators = []
+        for m in sv.methods.values():
+            for n in ast.walk(m.node):
+                if isinstance(n, ast.Call) and isinstance(n.func, ast.Attribute) and dotted(n.func.value) == f"self.{reg}" and \
+                        n.func.attr in ("add", "discard", "remove", "clear", "update", "pop", "difference_update"):
+                    mutators.append(m)
+                if isinstance(n, (ast.Assign, ast.AugAssign)) and m.name != "__init__":
+                    t = n.targets[0] if isinstance(n, ast.Assign) else n.target
+                    if dotted(t) == f"self.{reg}":
+                        mutators.append(m)
+        for cache in sorted(caches):
+            for m in {x.qual: x for x in mutators}.values():
+                if m is gf:
+                    continue
+                inval = any(isinstance(n, ast.Assign) and dotted(n.targets[0]) == f"self.{cache}" for n in ast.walk(m.node))
+                ctx.ob("C12.gated", m.short(), f"invalidates:{cache}", inval,
+                       f"{m.name} changes {reg} and resets the cached view {cache}" if inval else
+                       f"{getter} answers from the cached view `{cache}`, but {m.name} changes {reg} without resetting it: the gate keeps "
+                       "seeing a stale registry (a deregistered application is still accepted / a registered one refused)", m.loc)
     ct = P.func(f"{MT}.collect_trash")
     ctx.ob("C12.expiry", ct.short(), "runs-time-validity", "self.check_and_delete_time_validity()" in norm(unparse(ct.node)),
            "garbage collection applies the time-validity predicate", ct.loc)
